@@ -1317,9 +1317,17 @@ class DateTimeValidator(validators.DateValidator):
         if value is None:
             return None
         if isinstance(value,
-                      (datetime.datetime, datetime.date,
-                       datetime.time, sqlbuilder.SQLExpression)):
+                      (datetime.datetime, sqlbuilder.SQLExpression)):
             return value
+        if isinstance(value, datetime.date):
+            # a bare date means midnight of that day; stored as a date
+            # it could not be read back
+            return datetime.datetime.combine(value, datetime.time())
+        if isinstance(value, datetime.time):
+            raise validators.Invalid(
+                "expected a datetime in the DateTimeCol '%s', "
+                "got %s %r instead" % (
+                    self.name, type(value), value), value, state)
         if hasattr(value, "strftime"):
             return value.strftime(self.format)
         raise validators.Invalid(
@@ -1543,6 +1551,11 @@ class DateValidator(DateTimeValidator):
         value = super(DateValidator, self).to_python(value, state)
         if isinstance(value, datetime.datetime):
             value = value.date()
+        if isinstance(value, datetime.time):
+            raise validators.Invalid(
+                "expected a date in the DateCol '%s', "
+                "got %s %r instead" % (
+                    self.name, type(value), value), value, state)
         return value
 
     from_python = to_python
@@ -1620,6 +1633,11 @@ class TimeValidator(DateTimeValidator):
         value = super(TimeValidator, self).to_python(value, state)
         if isinstance(value, datetime.datetime):
             value = value.time()
+        if isinstance(value, datetime.date):
+            raise validators.Invalid(
+                "expected a time in the TimeCol '%s', "
+                "got %s %r instead" % (
+                    self.name, type(value), value), value, state)
         return value
 
     from_python = to_python
